@@ -214,6 +214,10 @@ func replayBatchFromChan(clck clock.Clock, batches <-chan edge.BufferedBatchMess
 				points[i].SetTime(points[i].Time().Add(diff).UTC())
 			}
 			lastTime = points[len(points)-1].Time()
+			// Shift tmax by the same offset as the points.
+			if !b.Begin().Time().IsZero() {
+				b.Begin().SetTime(b.Begin().Time().Add(diff).UTC())
+			}
 		} else {
 			lastTime = points[len(points)-1].Time().Add(diff).UTC()
 		}
